@@ -26,6 +26,25 @@ static double UNINFORMED_MEASURE(void) { return UNINF; }
 static double FMIN(double a, double b) { return b < a ? b : a; }
 double pl_getInformedMeasure(void)
 /*@BODY pl_getInformedMeasure@*/
+/* ---- membership counting ---- */
+bool INP[NP]; unsigned inq[NP];
+static bool IN_PHS(unsigned k) { __CPROVER_assert(k < N_PHS && k < NP, "hyperspheroid index"); inq[k]++; return INP[k]; }
+bool pl_isInAnyPhs(void)
+/*@BODY pl_isInAnyPhs@*/
+unsigned int pl_numberOfPhsInclusions(void)
+/*@BODY pl_numberOfPhsInclusions@*/
+void h_membership(void)
+{
+    __CPROVER_assume(N_PHS >= 1 && N_PHS <= NP); unsigned want = 0; bool any = false;
+    for (unsigned k = 0; k < NP; k++) { inq[k] = 0; if (k < N_PHS && INP[k]) { want++; any = true; } }
+    bool a = pl_isInAnyPhs();
+    __CPROVER_assert(!a == !any, "C15.region isInAnyPhs: true exactly when at least one hyperspheroid contains the sample");
+    for (unsigned k = 0; k < NP; k++) { __CPROVER_assert(inq[k] <= 1, "each hyperspheroid asked at most once"); inq[k] = 0; }
+    unsigned n = pl_numberOfPhsInclusions();
+    __CPROVER_assert(n == want, "C15.uniform numberOfPhsInclusions: the number of hyperspheroids containing the sample");
+    for (unsigned k = 0; k < NP; k++) __CPROVER_assert(inq[k] == (k < N_PHS ? 1 : 0), "every hyperspheroid asked exactly once");
+    if (want == 0) REACH("in none"); if (want == N_PHS && N_PHS > 1) REACH("in all"); if (want == 1 && N_PHS == 3) REACH("in one of three");
+}
 void h_keepSample(void)
 {
     __CPROVER_assume(N_PHS >= 1 && NUM_IN >= 1 && NUM_IN <= N_PHS && RAND >= 0.0 && RAND < 1.0 && RECIP_VAL > 0.0 && RECIP_VAL <= 1.0); incl_calls = rng_calls = 0; recip_called = false;
